@@ -8,6 +8,7 @@ import HaqqModel.Driver.C17
 import HaqqModel.Driver.C13
 import HaqqModel.Driver.C11
 import HaqqModel.Driver.C06
+import HaqqModel.Driver.C18
 
 open Haqq.Driver
 
@@ -25,6 +26,7 @@ def stepLine (st : All) (line : String) : All × String :=
   | "C17" :: rest => (st, C17.step rest)
   | "C11" :: rest => (st, C11.step rest)
   | "C06" :: rest => (st, C06.step rest)
+  | "C18" :: rest => (st, C18.step rest)
   | "C13" :: rest => let (s, o) := C13.step st.c13 rest; ({ st with c13 := s }, o)
   | _ => (st, "bad-op")
 
